@@ -35,6 +35,7 @@ type World struct {
 	pkg  *ssa.Package
 	db   *ContractDB
 	spec map[Mode]string
+	specOnly *concreteRun
 }
 
 var specText = map[Mode]string{}
@@ -69,7 +70,7 @@ func loadSpecs(dir string) error {
 }
 
 func (w *World) newEng(mode Mode) *Eng {
-	e := &Eng{prog: w.prog, pkg: w.pkg, db: w.db, mode: mode, pre: &Prelude{}, heaps: map[string]*heapInfo{},
+	e := &Eng{world: w, prog: w.prog, pkg: w.pkg, db: w.db, mode: mode, pre: &Prelude{}, heaps: map[string]*heapInfo{},
 		strConsts: map[string]string{}, globalIDs: map[string]int{}, fieldOrd: map[string]int{}, typeTags: map[string]int{},
 		unmodelled: map[string]bool{}, inlined: map[string]bool{}, usedExterns: map[string]bool{}, usedContracts: map[string]bool{},
 		safetyCounter: map[string]int{}, declared: map[string]bool{}}
@@ -167,7 +168,7 @@ func (w *World) verifyFunction(key string, fc *FuncContract, mode Mode) (res *Fu
 	for _, p := range fn.Params {
 		v, inv := e.freshVal("p."+p.Name(), p.Type(), st)
 		e.assume("true", inv)
-		if _, ok := p.Type().Underlying().(*types.Pointer); ok {
+		if _, ok := p.Type().Underlying().(*types.Pointer); ok && !(fc != nil && fc.Nilable[p.Name()]) {
 			e.assume("true", sx(">", v.C[0], "0"))
 		}
 		f.vals[p] = v
@@ -208,9 +209,14 @@ func (w *World) verifyFunction(key string, fc *FuncContract, mode Mode) (res *Fu
 			f.assumeFm("true", fm)
 		}
 	}
-	f.run("true", st)
+	e.replay = f.mkReplayInfo()
+	if w.specOnly != nil {
+		f.specOnlyReturn(w.specOnly, st)
+	} else {
+		f.run("true", st)
+	}
 	// every program point named by the contract must exist in the code
-	if fc != nil {
+	if fc != nil && w.specOnly == nil {
 		pts := map[string]bool{}
 		for _, p := range f.callOrd {
 			pts[p] = true
@@ -220,13 +226,34 @@ func (w *World) verifyFunction(key string, fc *FuncContract, mode Mode) (res *Fu
 		}
 		chk := func(pt, what string) {
 			pt = strings.TrimPrefix(strings.TrimPrefix(pt, "after "), "before ")
-			if pt == "at exit" || pt == "" || pts[pt] {
+			if pt == "at exit" || pt == "" || pts[pt] || pt == "return#$" {
 				return
 			}
 			e.fail(f, fmt.Errorf("%s refers to program point %s, which does not exist in the function any more", what, pt))
 		}
 		for _, c := range fc.Asserts {
 			chk(c.Point, "assert")
+		}
+		// cover: every call point of the named callee carries an assertion
+		// with the label (a new call site without one is reported)
+		for _, cv := range fc.Covers {
+			for pt := range pts {
+				if !strings.HasPrefix(pt, "call:"+cv[0]+"#") {
+					continue
+				}
+				ok := false
+				for _, c := range fc.Asserts {
+					if c.Point == pt && c.Label == cv[1] {
+						ok = true
+					}
+				}
+				goal := "(= 1 1)"
+				if !ok {
+					goal = "false"
+					e.warn("cover: %s has no assertion %s", pt, cv[1])
+				}
+				f.addObl("cover@"+pt, cv[1], "true", goal, nil, nil, "")
+			}
 		}
 		for _, g := range fc.Ghosts {
 			chk(g.Point, "ghost")
@@ -268,7 +295,7 @@ func (w *World) verifyFunction(key string, fc *FuncContract, mode Mode) (res *Fu
 			}
 		}
 		for _, c := range fc.Asserts {
-			if c.Point == fmt.Sprintf("return#%d", r.ord) && f.modeOK(c) {
+			if (c.Point == fmt.Sprintf("return#%d", r.ord) || c.Point == "return#$" && r.ord == len(f.retOrd)) && f.modeOK(c) {
 				fm, err := f.evalClause(env, c)
 				if err != nil {
 					e.fail(f, err)
@@ -301,6 +328,7 @@ func (w *World) verifyFunction(key string, fc *FuncContract, mode Mode) (res *Fu
 		ro.snap()
 		res.ReachChecks = append(res.ReachChecks, ro)
 	}
+	res.ReachChecks = append(res.ReachChecks, e.extraReach...)
 	return
 }
 
@@ -393,6 +421,60 @@ type readTerm struct{ key, idx string }
 
 // selectIndices returns the (array key, index term) of element-level selects in text.
 func selectIndices(text string, arrSyms map[string]bool, aliases map[string]string) []readTerm {
+	return resolveReads(rawReads(text), arrSyms, aliases)
+}
+
+func resolveReads(raw []rawRead, arrSyms map[string]bool, aliases map[string]string) []readTerm {
+	var res []readTerm
+	for _, r := range raw {
+		if r.arrAtom != "" {
+			if arrSyms[r.arrAtom] {
+				res = append(res, readTerm{findKey(aliases, r.arrAtom), r.idx})
+			}
+		} else {
+			res = append(res, readTerm{findKey(aliases, r.inner), r.idx})
+		}
+	}
+	return res
+}
+
+var rawReadCache sync.Map // instance text -> []rawRead
+
+func cachedRawReads(text string) []rawRead {
+	if v, ok := rawReadCache.Load(text); ok {
+		return v.([]rawRead)
+	}
+	r := rawReads(text)
+	rawReadCache.Store(text, r)
+	return r
+}
+
+func rawReads(text string) []rawRead {
+	var res []rawRead
+	var walk func(n *sexp)
+	walk = func(n *sexp) {
+		if n.atom != "" {
+			return
+		}
+		if len(n.kids) == 3 && n.kids[0].atom == "select" {
+			arr := n.kids[1]
+			if arr.atom != "" {
+				res = append(res, rawRead{arrAtom: arr.atom, idx: text[n.kids[2].s:n.kids[2].e]})
+			} else if len(arr.kids) == 3 && arr.kids[0].atom == "select" {
+				res = append(res, rawRead{inner: text[arr.kids[2].s:arr.kids[2].e], idx: text[n.kids[2].s:n.kids[2].e]})
+			}
+		}
+		for _, k := range n.kids {
+			walk(k)
+		}
+	}
+	for _, n := range parseSexps(text) {
+		walk(n)
+	}
+	return res
+}
+
+func selectIndicesOld(text string, arrSyms map[string]bool, aliases map[string]string) []readTerm {
 	var res []readTerm
 	var walk func(n *sexp)
 	walk = func(n *sexp) {
@@ -469,9 +551,12 @@ func (o *Obligation) buildQuery(stage string, idxSort string) string {
 	anc := ancestors(o.origin)
 	rel := func(b *ssa.BasicBlock) bool { return anc == nil || b == nil || anc[b] }
 	var ab strings.Builder
-	for _, r := range p.asserts.recs[:o.nAssert] {
+	var relRecs []*assertRec
+	for i := range p.asserts.recs[:o.nAssert] {
+		r := &p.asserts.recs[i]
 		if rel(r.origin) {
 			ab.WriteString(r.text)
+			relRecs = append(relRecs, r)
 		}
 	}
 	asserts := ab.String()
@@ -518,20 +603,29 @@ func (o *Obligation) buildQuery(stage string, idxSort string) string {
 		for _, t := range selectIndices(tail, arr, p.aliases) {
 			add(t)
 		}
-		for _, t := range selectIndices(asserts, arr, p.aliases) {
-			add(t)
+		for _, r := range relRecs {
+			r.cache.once.Do(func() { r.cache.reads = rawReads(r.text) })
+			for _, t := range resolveReads(r.cache.reads, arr, p.aliases) {
+				add(t)
+			}
 		}
 		seen := map[string]bool{}
 		total := 0
 		done := map[string]int{} // per key: how many candidates already used
+		defined := map[int]bool{}
+		constReadsDone := map[int]bool{}
+		qbodyReads := map[int][]rawRead{}
 		for round := 0; round < 7 && total < maxInstances; round++ {
 			var newText strings.Builder
+			var newReads []rawRead
 			snapshot := map[string]int{}
 			for k, v := range byKey {
 				snapshot[k] = len(v)
 			}
 			progress := false
-			for _, q := range qs {
+			for qi, q := range qs {
+				qname := fmt.Sprintf("Q!%d", qi)
+				var qreads []rawRead
 				for _, ko := range q.Offsets {
 					key, off := "", ko
 					if i := strings.Index(ko, "\x00"); i >= 0 {
@@ -544,17 +638,35 @@ func (o *Obligation) buildQuery(stage string, idxSort string) string {
 					cl := byKey[key]
 					for _, t := range cl[done[key]:snapshot[key]] {
 						inst := idxSub(t, off, idxSort)
-						txt := imp(and(q.Reach, strings.ReplaceAll(q.Guard, q.Var, inst)), strings.ReplaceAll(q.Body, q.Var, inst))
-						if seen[txt] {
+						sk := qname + "\x00" + inst
+						if seen[sk] {
 							continue
 						}
-						seen[txt] = true
+						seen[sk] = true
 						total++
 						if total > maxInstances {
 							break
 						}
 						progress = true
-						newText.WriteString("(assert " + txt + ")\n")
+						if !defined[qi] {
+							// the quantified hypothesis as a macro: an instance is one short line
+							defined[qi] = true
+							body := imp(and(q.Reach, q.Guard), q.Body)
+							newText.WriteString("(define-fun " + qname + " ((" + q.Var + " " + q.Sort + ")) Bool " + body + ")\n")
+							qbodyReads[qi] = cachedRawReads(body)
+						}
+						if qreads == nil {
+							qreads = qbodyReads[qi]
+						}
+						newText.WriteString("(assert (" + qname + " " + inst + "))\n")
+						for _, r := range qreads {
+							if strings.Contains(r.idx, q.Var) || strings.Contains(r.inner, q.Var) {
+								newReads = append(newReads, rawRead{arrAtom: r.arrAtom, inner: strings.ReplaceAll(r.inner, q.Var, inst), idx: strings.ReplaceAll(r.idx, q.Var, inst)})
+							} else if !constReadsDone[qi] {
+								newReads = append(newReads, r)
+							}
+						}
+						constReadsDone[qi] = true
 					}
 				}
 			}
@@ -565,7 +677,7 @@ func (o *Obligation) buildQuery(stage string, idxSort string) string {
 			if !progress {
 				break
 			}
-			for _, t := range selectIndices(newText.String(), arr, p.aliases) {
+			for _, t := range resolveReads(newReads, arr, p.aliases) {
 				add(t)
 			}
 		}
@@ -657,29 +769,43 @@ func dischargeOne(o *Obligation, cfg dischargeCfg) {
 		o.Status, o.Solver, o.TimeS, o.Answers = r.Status, r.Solver, r.TimeS, r.Answers
 		return
 	}
-	if r.Status != "unsat" && o.hasQuant() {
-		// keys of array reads did not line up textually: instantiate every
-		// hypothesis at every index term
-		r1 := try("qf2", cfg.timeoutS)
-		if r1.Status == "unsat" {
-			o.Stage = "qf2"
-			r = r1
+	// Later stages: unkeyed instantiation, then the quantified query.  A "sat"
+	// of an instantiated query is not definitive (instances only weaken the
+	// hypotheses), so stages that time out are retried with the long timeout
+	// before the obligation is reported.
+	if r.Status != "unsat" {
+		stages := []string{"qf"}
+		if o.hasQuant() {
+			stages = []string{"qf", "qf2", "quant"}
 		}
-	}
-	if r.Status != "unsat" && o.hasQuant() {
-		r2 := try("quant", cfg.timeoutS)
-		if r2.Status == "unsat" || r.Status != "sat" {
-			if r2.Status == "unsat" {
-				o.Stage = "quant"
-				r = r2
+		pending := map[string]bool{}
+		for _, stg := range stages[1:] {
+			rs := try(stg, cfg.timeoutS)
+			if rs.Status == "unsat" {
+				o.Stage, r = stg, rs
+				break
+			}
+			if rs.Status != "sat" {
+				pending[stg] = true
 			}
 		}
-	}
-	if r.Status != "unsat" && r.Status != "sat" && r.Status != "disagree" && cfg.retryS > cfg.timeoutS {
-		r3 := try("qf", cfg.retryS)
-		if r3.Status == "unsat" || r3.Status == "sat" {
-			r = r3
-			o.Stage = "qf"
+		if r.Status != "unsat" && r.Status != "sat" {
+			pending["qf"] = true
+		}
+		if r.Status != "unsat" && cfg.retryS > cfg.timeoutS {
+			for _, stg := range stages {
+				if !pending[stg] {
+					continue
+				}
+				rs := try(stg, cfg.retryS)
+				if rs.Status == "unsat" {
+					o.Stage, r = stg, rs
+					break
+				}
+				if stg == "qf" && rs.Status == "sat" {
+					r = rs
+				}
+			}
 		}
 	}
 	o.Status, o.Solver, o.TimeS, o.Answers = r.Status, r.Solver, r.TimeS, r.Answers
@@ -718,4 +844,48 @@ func idxSub(t, off, idxSort string) string {
 		return sx("-", t, off)
 	}
 	return sx("bvsub", t, off)
+}
+
+// specOnlyReturn replaces the execution of the body by one pseudo return whose
+// state is the entry state with the contract's modifies set havocked, and ties
+// parameters, results and modified byte slices to the values of a concrete
+// run of the real code (replay.go).
+func (f *Frame) specOnlyReturn(cr *concreteRun, st *State) {
+	e := f.e
+	fn := f.fn
+	post := st.clone()
+	if f.fc != nil && len(f.fc.ModExprs) > 0 {
+		menv := f.env(f.entrySt)
+		for n, v := range f.params {
+			menv.vars[n] = v
+		}
+		f.havocItems(post, f.evalModItems(menv, f.fc.ModExprs), "true")
+	}
+	for _, p := range fn.Params {
+		c, ok := cr.Params[p.Name()]
+		if !ok {
+			continue
+		}
+		for _, a := range f.concreteConstraints(f.params[p.Name()], p.Type(), c, f.entrySt) {
+			e.assume("true", a)
+		}
+		if pc, ok := cr.Post[p.Name()]; ok && replayKind(p.Type()) == "slice" {
+			for _, a := range f.concreteConstraints(f.params[p.Name()], p.Type(), pc, post) {
+				e.assume("true", a)
+			}
+		}
+	}
+	var vals []Val
+	rs := fn.Signature.Results()
+	for i := 0; i < rs.Len(); i++ {
+		v, inv := e.freshVal(fmt.Sprintf("res%d", i), rs.At(i).Type(), post)
+		e.assume("true", inv)
+		if i < len(cr.Results) {
+			for _, a := range f.concreteConstraints(v, rs.At(i).Type(), cr.Results[i], post) {
+				e.assume("true", a)
+			}
+		}
+		vals = append(vals, v)
+	}
+	f.rets = []retRec{{reach: "true", st: post, vals: vals, ord: 1}}
 }
